@@ -108,10 +108,16 @@ def gen_tree(rng, with_banks=False):
                 continue
             t = rng.choice(all_paths)
             e = ref_to(t, ctx)
-            out.append(("data", 16, [("sshort", e, num(16))]))
+            if rng.random() < 0.4:
+                # the same reference as an instruction operand (the matcher keeps its own notion of the enclosing scope)
+                out.append(("instr", [("t", "ref", "lit"), ("e", e)]))
+            else:
+                out.append(("data", 16, [("sshort", e, num(16))]))
         else:
             out.append(it)
-    isa = {"rules": [{"pat": [("lit", "nop")], "prod": ("int", 0xea, 8, "0xea"), "size": 8, "name": "r0"}], "subs": {}, "comma_space": True}
+    isa = {"rules": [{"pat": [("lit", "nop")], "prod": ("int", 0xea, 8, "0xea"), "size": 8, "name": "r0"},
+                     {"pat": [("lit", "ref"), ("param", "v", None)], "prod": ("sshort", ("var", 0, ["v"]), num(16)), "size": 16, "name": "r1"}],
+           "subs": {}, "comma_space": True}
     banks = []
     if rng.random() < 0.2:
         banks = [{"name": "main", "unit": 8, "addr": rng.choice([0, 0x100, 0x8000]), "size": None, "outp": 0, "fill": False,
@@ -310,7 +316,7 @@ def shard(ctx):
         ctx.evaluated()
         ctx.monitor("scoping-model")
         verdict = c01.judge(ctx, prog, src, rec, job)
-        nrefs = sum(1 for it in prog["items"] if it[0] == "data" and it[1] == 16)
+        nrefs = sum(1 for it in prog["items"] if (it[0] == "data" and it[1] == 16) or it[0] == "instr")
         if verdict == "ok" and repeated_locals(prog) >= 1 and nrefs >= 3:
             ctx.nontrivial_case(src.encode())
             ctx.sample({"source": src[src.index("}") + 2:][:700], "bits": rec["out"]["hex"][:80]}, limit=1)
